@@ -191,7 +191,7 @@ def run(m: Model, r: Report, tier: str) -> None:
             self.__dict__.update(kw)
 
     def _filters(fn):
-        loops_ = [n for n in walk_no_nested(fn.node) if isinstance(n, ast.While)]
+        loops_ = [n for n in fn.node.body if isinstance(n, ast.While)]        # the consumer loop is the top-level one
         if len(loops_) != 1:
             raise AnalysisError(f"{fn.qualname}: consumer loop not found")
         return [n for n in loops_[0].body if isinstance(n, ast.If) and n.body and isinstance(n.body[-1], ast.Continue)], loops_[0]
@@ -241,6 +241,8 @@ def run(m: Model, r: Report, tier: str) -> None:
             if _eval(pref[0].test, ack, _P("x", PreviousDiagnosticMessageData=echo), {ppar: b"\x22\xf1\x90"}) != want_skip:
                 bad.append(echo.hex() or "<empty>")
         r.check(not bad, "R6", f"{ack.qualname}#echo-prefix-table", f"for the request 22f190 an ack echoing {bad} is classified wrongly (an ack belongs to the request iff its echo is a prefix of it)", loc=ack.loc)
+    tr.requeue_order(r, "R7", ack, m.require_function(f"{DOIP}.DoIPConnection._read_worker"), "_read_queue",
+                     skips_deliverable=_eval([x for x in _filters(ack)[0] if "isinstance(" in ast.unparse(x.test)][0].test, ack, _P("DiagnosticMessage")))
     tr.requeue_before_exit(r, "R7", ack, "self._read_queue", ("DoIPNegativeAckError",))
     tr.requeue_before_exit(r, "R7", diag, "self._read_queue")
     tr.requeue_before_exit(r, "R7", ra, "self._read_queue", ("DoIPRoutingActivationDeniedError",))
